@@ -1240,6 +1240,29 @@ static void build_large (int thorough, const char *which)
 }
 
 /* lens mode (C07): symbol lengths x alignments on a reduced list, scenario per (cfg,len,align) */
+
+/* rows mode: LDPC, every union of at most three complete equations erased (everything else received), then FINISH,
+ * through both submission APIs. Equations all of whose symbols are unknown enter ML decoding with an absent (NULL)
+ * constant term; whole-row erasures are the family that produces them, the 2^n sweep reaches them only for tiny n. */
+static void build_rows (int thorough)
+{
+	int k, r, N1, seed, smax = thorough ? 12 : 3;
+	for (k = 2; k <= (thorough ? 28 : 20); k++) for (r = 3; r <= (thorough ? 16 : 12); r++) for (N1 = 3; N1 <= r && N1 <= 5; N1++) for (seed = 1; seed <= smax; seed++) {
+		long c0; int a, b, c, e;
+		if (k + r > 44) continue;
+		c0 = NCF; add_cfg (3, 0, k, r, N1, seed, 4, 0, (k + r + seed) % 3 == 0, 0);
+		G = CF[c0]; make_codeword (&G);
+		for (a = 0; a < r; a++) for (b = a; b < r; b++) for (c = b; c < r; c++) {
+			uint64_t lost = 0;
+			if (!thorough && c != b && c != r - 1 && a != 0) continue;	/* quick: singles, pairs, and triples touching the first or last equation */
+			for (e = 0; e < k + r; e++) if (bm_get (Href, a, e) || bm_get (Href, b, e) || bm_get (Href, c, e)) lost |= (uint64_t) 1 << e;
+			add_scen (c0, "Sm%llx,F", (unsigned long long) (~lost & (((uint64_t) 1 << (k + r)) - 1)));
+			add_scen (c0, "Am%llx,F", (unsigned long long) (~lost & (((uint64_t) 1 << (k + r)) - 1)));
+		}
+		free_codeword (&G);
+	}
+}
+
 static void build_lens (int thorough, const char *which)
 {
 	static const int lens[] = {1, 2, 3, 4, 5, 6, 7, 8, 9, 10, 11, 12, 13, 14, 15, 16, 17, 18, 19, 20, 21, 22, 23, 24, 25, 26, 27, 28, 29, 30, 31, 32, 33, 34, 35, 36, 37, 38, 39, 40, 63, 64, 65, 100, 127, 128, 129, 255, 256, 257, 511, 512, 513, 1023, 1024, 1025, 1500, 2047, 2048, 2049, 4095, 4096, 4097, 8192, 16384, 32768, 65535, 65536};
@@ -1343,6 +1366,10 @@ int main (int argc, char **argv)
 		if (strstr (which, "ldpc")) {
 			for (j = 0; j < nl; j++) add_cfg (3, 0, nlist[j][0], nlist[j][1], nlist[j][2], nlist[j][3], 4, 0, 0, 0);
 			{ int k, r, N1; for (k = 2; k <= (thorough ? 9 : 7); k++) for (r = 3; r <= (thorough ? 7 : 6); r++) for (N1 = 3; N1 <= r && N1 <= 4; N1++) if (k + r <= (thorough ? 16 : 13)) add_cfg (3, 0, k, r, N1, 1 + (k * 7 + r) % 5, 4, 0, (k + r) & 1, 0); }
+			{	/* --seeds S: every shape again with seeds 1..S (a wider family of matrices on the same dimensions) */
+				int k, r, N1, sd, S = (int) vf_opt_long ("seeds", 0), nm = (int) vf_opt_long ("nmaxseeds", 14);
+				for (sd = 1; sd <= S; sd++) for (k = 2; k <= 11; k++) for (r = 3; r <= 9; r++) for (N1 = 3; N1 <= r && N1 <= 5; N1++) if (k + r <= nm) add_cfg (3, 0, k, r, N1, sd, 4, 0, (k + r + sd) & 1, 0);
+			}
 		}
 		if (strstr (which, "2d")) {
 			int k, r, nmax = thorough ? 24 : 16;
@@ -1361,8 +1388,8 @@ int main (int argc, char **argv)
 		vf_note ("subsets: %ld configurations, %ld chunks", NCF, NCH);
 		vf_stat_add (st_cfgs, NCF);
 		vf_pool_run (NCH, item_subsets, NULL, 0);
-	} else if (!strcmp (mode, "large") || !strcmp (mode, "lens")) {
-		if (!strcmp (mode, "large")) build_large (thorough, which); else build_lens (thorough, which);
+	} else if (!strcmp (mode, "large") || !strcmp (mode, "lens") || !strcmp (mode, "rows")) {
+		if (!strcmp (mode, "large")) build_large (thorough, which); else if (!strcmp (mode, "rows")) build_rows (thorough); else build_lens (thorough, which);
 		vf_note ("%s: %ld configurations, %ld scenarios", mode, NCF, NSC);
 		vf_stat_add (st_cfgs, NCF);
 		vf_pool_run (NSC, item_scen, NULL, 0);
